@@ -147,12 +147,16 @@ COMMON_OPTS = [{}, {}, {"run": "ok_if_load_scaled"}, {"run": "ok_if_load_scaled"
 # thresholds that flag ordinary elements as implausible
 THRESHOLDS = [{"max_r_ohm": 1.0, "max_x_ohm": 1.0}, {"min_x_ohm": 5.0}, {"min_r_ohm": 5.0, "min_x_ohm": 5.0}, {"max_x_ohm": 10.0}]
 IMPL_TYPES = ["xward", "xward", "line", "impedance", "trafo", "trafo3w"]
-PROFILE_2L = netgen.profile(nb_level=(1, 3), nb_max=6, max_per_bus=2, extra_branches=(0, 1), oos=0.05,
+PROFILE_1L = netgen.profile(nb_level=(1, 3), nb_max=6, max_per_bus=2, extra_branches=(0, 1), oos=0, open_prob=0.1,
+                            bus_kinds={"load": 5, "sgen": 3, "gen": 2, "storage": 1, "shunt": 1, "ward": 1, "xward": 2,
+                                       "motor": 1, "asymmetric_load": 0, "asymmetric_sgen": 0},
+                            branch_kinds={"line": 7, "impedance": 2, "bb": 1})
+PROFILE_2L = netgen.profile(nb_level=(1, 3), nb_max=6, max_per_bus=2, extra_branches=(0, 1), oos=0, open_prob=0.1,
                             level_sets=[ls for ls in netgen.LEVEL_SETS if len(ls) == 2],
                             bus_kinds={"load": 5, "sgen": 3, "gen": 2, "storage": 1, "shunt": 1, "ward": 1, "xward": 2,
                                        "motor": 1, "asymmetric_load": 0, "asymmetric_sgen": 0},
                             branch_kinds={"line": 7, "impedance": 2, "bb": 1})
-PROFILE_3L = netgen.profile(nb_level=(1, 2), nb_max=6, max_per_bus=2, extra_branches=(0, 1), oos=0.05,
+PROFILE_3L = netgen.profile(nb_level=(1, 2), nb_max=6, max_per_bus=2, extra_branches=(0, 1), oos=0, open_prob=0.1,
                             level_sets=[ls for ls in netgen.LEVEL_SETS if len(ls) == 3],
                             bus_kinds={"load": 5, "sgen": 3, "gen": 2, "storage": 1, "shunt": 1, "ward": 1, "xward": 2,
                                        "motor": 1, "asymmetric_load": 0, "asymmetric_sgen": 0},
@@ -216,54 +220,60 @@ def _level_s(recipe, bus):
     return netgen.LEVELS[recipe["buses"][bus]["vn_kv"]]["s"]
 
 
-def _make_implausible(draw, recipe, et):
-    """make one in-service element of type `et` implausible for the DEFAULT thresholds (r/x <= 0.001 ohm or >= 100 ohm) by
-    value; the element is inserted when the recipe has none and the type allows it. -> description or None (not possible)"""
+def _pick_or_insert(draw, recipe, et):
+    """an in-service element of type `et` of the recipe; xward / impedance are inserted when there is none and the
+    recipe allows it (no xward at a voltage-controlled node; impedance parallel to a line). -> element or None"""
     el = recipe["el"]
     cand = [e for e in el if e["t"] == et and _alive(recipe, e)]
+    if cand:
+        return draw(st.sampled_from(cand))
     if et == "xward":
-        if not cand:
-            node = netgen.nodes_of(recipe)
-            vc = {node[e["bus"]] for e in el if e["t"] in ("ext_grid", "gen")}
-            buses = [i for i, b in enumerate(recipe["buses"]) if b.get("in_service", True) and node[i] not in vc]
-            if not buses:
-                return None
-            b = draw(st.sampled_from(buses))
-            S = _level_s(recipe, b)
-            cand = [{"t": "xward", "bus": b, "ps_mw": round(0.1 * S, 6), "qs_mvar": round(0.03 * S, 6), "pz_mw": 0.0,
-                     "qz_mvar": 0.0, "r_ohm": 0.0, "x_ohm": 1.0, "vm_pu": 1.0}]
-            el.append(cand[0])
-        e = draw(st.sampled_from(cand))
+        node = netgen.nodes_of(recipe)
+        vc = {node[e["bus"]] for e in el if e["t"] in ("ext_grid", "gen")}
+        buses = [i for i, b in enumerate(recipe["buses"]) if b.get("in_service", True) and node[i] not in vc]
+        if not buses:
+            return None
+        b = draw(st.sampled_from(buses))
+        S = _level_s(recipe, b)
+        zb = recipe["buses"][b]["vn_kv"] ** 2 / S
+        e = {"t": "xward", "bus": b, "ps_mw": round(0.1 * S, 6), "qs_mvar": round(0.03 * S, 6), "pz_mw": 0.0,
+             "qz_mvar": 0.0, "r_ohm": round(0.01 * zb, 6), "x_ohm": round(0.1 * zb, 6), "vm_pu": 1.0}
+        el.append(e)
+        return e
+    if et == "impedance":
+        lines = [e for e in el if e["t"] == "line" and _alive(recipe, e)]
+        if not lines:
+            return None
+        ln = draw(st.sampled_from(lines))
+        e = {"t": "impedance", "from_bus": ln["from_bus"], "to_bus": ln["to_bus"], "rft_pu": 0.01, "xft_pu": 0.05,
+             "sn_mva": round(2 * _level_s(recipe, ln["from_bus"]), 4)}
+        el.append(e)
+        return e
+    return None
+
+
+def _make_implausible(draw, recipe, et):
+    """make one in-service element of type `et` implausible for the DEFAULT thresholds (r/x <= 0.001 ohm or >= 100 ohm) by
+    value. -> description or None (not possible)"""
+    e = _pick_or_insert(draw, recipe, et)
+    if e is None:
+        return None
+    if et == "xward":
         how = draw(st.sampled_from(["zero", "zero", "tiny", "huge"]))
         e.update({"zero": dict(r_ohm=0.0, x_ohm=0.0), "tiny": dict(r_ohm=0.0, x_ohm=0.0005),
                   "huge": dict(x_ohm=150.0)}[how])
         return "xward/" + how
     if et == "line":
-        if not cand:
-            return None
-        e = draw(st.sampled_from(cand))
         how = draw(st.sampled_from(["tiny", "tiny", "zero-r", "huge"]))
         e.update({"tiny": dict(length_km=0.001), "zero-r": dict(r_ohm_per_km=0.0), "huge": dict(length_km=2000.0)}[how])
         return "line/" + how
     if et == "impedance":
-        if not cand:
-            lines = [e for e in el if e["t"] == "line" and _alive(recipe, e)]
-            if not lines:
-                return None
-            ln = draw(st.sampled_from(lines))
-            cand = [{"t": "impedance", "from_bus": ln["from_bus"], "to_bus": ln["to_bus"], "rft_pu": 0.01, "xft_pu": 0.05,
-                     "sn_mva": round(2 * _level_s(recipe, ln["from_bus"]), 4)}]
-            el.append(cand[0])
-        e = draw(st.sampled_from(cand))
         how = draw(st.sampled_from(["tiny", "tiny", "huge"]))
         v = {"tiny": dict(rft_pu=0.0, xft_pu=1e-05), "huge": dict(xft_pu=50.0)}[how]
         e.update(v)
         if "xtf_pu" in e:
             e.update({k.replace("ft_", "tf_"): x for k, x in v.items()})
         return "impedance/" + how
-    if not cand:
-        return None
-    e = draw(st.sampled_from(cand))
     # transformers: short-circuit reactance referred to the hv side >= 100 ohm when that needs vk <= 40 %
     sn, vk_key = (e["sn_mva"], "vk_percent") if et == "trafo" else (e["sn_hv_mva"], "vk_hv_percent")
     vk = 100.0 * 100.0 * sn / e["vn_hv_kv"] ** 2
@@ -290,10 +300,46 @@ def _netspec(draw, prof=PROFILE):
             "zones": draw(st.sampled_from([False, False, True]))}
 
 
+def _supplied_buses(recipe):
+    """bus positions connected to an in-service slack through in-service branches / closed switches (sorted)"""
+    el = recipe["el"]
+    ok = lambda b: recipe["buses"][b].get("in_service", True)      # noqa: E731
+    cut = set()         # (table, ordinal) of branches with an open element switch
+    for e in el:
+        if e["t"] == "switch" and e["et"] != "b" and not e.get("closed", True):
+            cut.add((netgen.ET_TABLE[e["et"]], e["element"]))
+    adj = {}
+    count = {}
+    for e in el:
+        t = e["t"]
+        k = count[t] = count.get(t, -1) + 1
+        if t == "switch":
+            ends = [e["bus"], e["element"]] if e["et"] == "b" and e.get("closed", True) else []
+        elif t in ("line", "impedance", "trafo", "trafo3w"):
+            ends = [e[x] for x in netgen.BUS_KEYS if x in e] if e.get("in_service", True) and (t, k) not in cut else []
+        else:
+            continue
+        if all(ok(b) for b in ends):
+            for a in ends:
+                adj.setdefault(a, set()).update(ends)
+    todo = [e["bus"] for e in el if (e["t"] == "ext_grid" or (e["t"] == "gen" and e.get("slack"))) and e.get("in_service", True)
+            and ok(e["bus"])]
+    seen = set(todo)
+    while todo:
+        for b in adj.get(todo.pop(), ()):
+            if b not in seen:
+                seen.add(b)
+                todo.append(b)
+    return sorted(seen)
+
+
 def _huge_load(draw, spec):
-    """a load far beyond the capability of the network at an in-service bus: the power flow does not converge"""
+    """a load far beyond the capability of the network at a supplied bus (if possible not the slack bus): the power flow
+    does not converge"""
     recipe = spec["recipe"]
-    buses = [i for i, b in enumerate(recipe["buses"]) if b.get("in_service", True)]
+    slack = {e["bus"] for e in recipe["el"] if e["t"] == "ext_grid" or (e["t"] == "gen" and e.get("slack"))}
+    sup = _supplied_buses(recipe)
+    buses = [b for b in sup if b not in slack] or sup or [i for i, b in enumerate(recipe["buses"]) if b.get("in_service", True)]
     b = draw(st.sampled_from(buses))
     S = _level_s(recipe, b)
     recipe["el"].append({"t": "load", "bus": b, "p_mw": round(300.0 * S, 6), "q_mvar": round(100.0 * S, 6)})
@@ -339,7 +385,7 @@ def _reuse_prefix(draw, nets):
     for k in k1:
         common.pop(k, None)
     j1 = draw(st.integers(0, len(nets) - 1))
-    j2 = j1 if draw(st.integers(0, 2)) else draw(st.integers(0, len(nets) - 1))
+    j2 = j1 if draw(st.integers(0, 3)) else draw(st.integers(0, len(nets) - 1))
     if not common or draw(st.integers(0, 2)) == 2:
         _huge_load(draw, nets[j2])        # the second call sees a really non-converging network
     second = 1 if two else 0
@@ -359,17 +405,26 @@ def _implausible_case(draw):
     """an element of every type the replace step touches is flagged (by value or by thresholds); base power flow converges
     or fails (huge load, max_iteration=1, run hook)"""
     et = draw(st.sampled_from(IMPL_TYPES))
-    spec = draw(_netspec({"trafo": PROFILE_2L, "trafo3w": PROFILE_3L}.get(et, PROFILE)))
+    spec = draw(_netspec({"trafo": PROFILE_2L, "trafo3w": PROFILE_3L}.get(et, PROFILE_1L)))
     spec["stress"] = 1
+    recipe = spec["recipe"]
+    triggers = ["xward", "line", "impedance"]
     by_value = draw(st.integers(0, 2)) > 0
-    done = _make_implausible(draw, spec["recipe"], et) if by_value else None
-    if et in ("trafo", "trafo3w") or done is None:
-        # the replace step needs a flagged line / impedance / xward: one more by value, or thresholds that flag nearly all
-        extra = _make_implausible(draw, spec["recipe"], draw(st.sampled_from(["line", "impedance", "xward"]))) \
-            if draw(st.booleans()) else None
-        if done is None or extra is None:
-            by_value = False
-    kwargs = {} if by_value else dict(draw(st.sampled_from(THRESHOLDS)))
+    kwargs = {}
+    if by_value:
+        done = _make_implausible(draw, recipe, et)
+        if et in ("trafo", "trafo3w") or done is None:
+            # the replace step needs a flagged line / impedance / xward
+            for t in draw(st.permutations(triggers)):
+                if _make_implausible(draw, recipe, t):
+                    break
+    else:
+        # thresholds that flag ordinary elements; an element of the wanted type and one that triggers the replace step exist
+        if _pick_or_insert(draw, recipe, et) is None or et in ("trafo", "trafo3w"):
+            for t in draw(st.permutations(triggers)):
+                if _pick_or_insert(draw, recipe, t):
+                    break
+        kwargs = dict(draw(st.sampled_from(THRESHOLDS)))
     pf = draw(st.sampled_from(["converge", "converge", "huge-load", "huge-load", "max_iteration", "hook"]))
     if pf == "huge-load":
         _huge_load(draw, spec)
@@ -406,12 +461,15 @@ def _case(draw, tier):
     if scenario == "implausible":
         return draw(_implausible_case())
     n_nets = draw(st.sampled_from([1, 1, 2, 2, 3]))
-    nets = [draw(_netspec()) for _ in range(n_nets)]
     if scenario == "reuse":
+        # mostly networks without out-of-service elements (netgen's in_service draws leave few supplied buses otherwise)
+        nets = [draw(_netspec(draw(st.sampled_from([PROFILE_1L, PROFILE_1L, PROFILE_2L, PROFILE_3L, PROFILE]))))
+                for _ in range(n_nets)]
         ops = draw(_reuse_prefix(nets))
         n_tail = draw(st.integers(0, 2))
         ops += draw(st.lists(_op(), min_size=n_tail, max_size=n_tail))
         return {"nets": nets, "ops": ops}
+    nets = [draw(_netspec()) for _ in range(n_nets)]
     n_ops = draw(st.integers(3, 8))
     ops = draw(st.lists(_op(), min_size=n_ops, max_size=n_ops))
     clean = draw(st.integers(0, 3)) == 3
